@@ -234,7 +234,7 @@ def shard_workflows(prop: str, tier: str, seed: int, n: int) -> dict[str, Any]:
             stg = w.store.retrieve_stage(target.id)
             expected = copy.deepcopy(after)
             ev = expected["stages"][stg.id]
-            changes = data.draw(st.lists(st.sampled_from(["status", "context", "outputs", "start_time", "end_time", "task"]), unique=True, max_size=4))
+            changes = data.draw(st.lists(st.sampled_from(["status", "context", "outputs", "start_time", "end_time", "task", "task-flags"]), unique=True, max_size=4))
             for ch in changes:
                 if ch == "status":
                     stg.status = WorkflowStatus[data.draw(st.sampled_from([x.name for x in WorkflowStatus]))]
@@ -259,6 +259,15 @@ def shard_workflows(prop: str, tier: str, seed: int, n: int) -> dict[str, Any]:
                     stg.tasks[i].end_time = data.draw(st.one_of(st.none(), INT64))
                     stg.tasks[i].task_exception_details = data.draw(JDICT)
                     ev["tasks"][i].update(status=stg.tasks[i].status.name, end_time=stg.tasks[i].end_time, exc=copy.deepcopy(stg.tasks[i].task_exception_details))
+                elif ch == "task-flags" and stg.tasks:
+                    # what the StartStage planner does to tasks that were stored with the workflow: it marks the first / last
+                    # task of the stage (and loop boundaries) and stamps the start time, then saves the stage
+                    i = data.draw(st.integers(0, len(stg.tasks) - 1))
+                    tk = stg.tasks[i]
+                    tk.stage_start, tk.stage_end = data.draw(st.booleans()), data.draw(st.booleans())
+                    tk.loop_start, tk.loop_end = data.draw(st.booleans()), data.draw(st.booleans())
+                    tk.start_time = data.draw(st.one_of(st.none(), INT64))
+                    ev["tasks"][i].update(stage_start=tk.stage_start, stage_end=tk.stage_end, loop_start=tk.loop_start, loop_end=tk.loop_end, start_time=tk.start_time)
             path = data.draw(st.sampled_from(["store", "txn", "txn-phase"]))
             old_status = after["stages"][stg.id]["status"]
             if path == "store":
